@@ -185,9 +185,16 @@ func c17Concurrent(c *verifmc.Check) {
 				report("concurrent:no-call-succeeded", fmt.Sprintf("scenario %q: every call failed %v", sc.name, pat))
 			}
 			sort.Strings(pat)
-			c17Check(w, func(key, desc string) {
-				report("concurrent:"+key, fmt.Sprintf("scenario %q after [%s]: %s", sc.name, strings.Join(pat, " "), desc))
-			})
+			if pv := verifmc.Catch(func() {
+				c17Check(w, func(key, desc string) {
+					report("concurrent:"+key, fmt.Sprintf("scenario %q after [%s]: %s", sc.name, strings.Join(pat, " "), desc))
+				})
+			}); pv != nil {
+				// the ledger scan itself found an impossible record (e.g. a
+				// finalization whose transaction body is gone)
+				report("concurrent:ledger-inconsistent", fmt.Sprintf("scenario %q after [%s]: %v", sc.name, strings.Join(pat, " "), pv))
+				return strings.Join(pat, " ") + " => inconsistent ledger"
+			}
 			var tot []string
 			for _, a := range c17Assets() {
 				_, bal, _ := w.L.Store.ReadAssetWithBalance(a)
